@@ -32,10 +32,13 @@ namespace {
 
 Opm::Deck parse_text(const std::string& text)
 {
+    // the keyword table is immutable after construction (parseString is const): built once per process,
+    // every request still parses its own text into a fresh Deck
+    static const Opm::Parser parser;
     Opm::ParseContext ctx(Opm::InputErrorAction::THROW_EXCEPTION);
     Opm::ErrorGuard errors;
     try {
-        auto deck = Opm::Parser().parseString(text, ctx, errors);
+        auto deck = parser.parseString(text, ctx, errors);
         errors.clear();
         return deck;
     } catch (...) {
